@@ -67,9 +67,8 @@ def adv_method(models, eng, ref, o, name, args, kws, st):
         data = eng.fresh_bytes(st, 'advread')
         n = args[0] if args else NONE
         iv, ok = eng.as_int(n, st) if not isinstance(n, VNone) else (None, None)
-        if iv is not None:
-            # ghost: a read that returns a different amount than requested is a short read
-            st.put(ref, o.replace(extra=dict(o.extra, __short=VBool(t.or_(short, t.and_(t.ge(iv, t.ZERO), t.ne(data.len, iv)))))))
+        # short READS are visible to the caller through the length of the returned data (stream_read checks it);
+        # the ghost flag tracks short WRITES, which are visible only through write()'s return value
         out.append((st, data))
     elif name == 'write':
         w = fresh('advwrite', t.INT)
@@ -115,8 +114,7 @@ def bytesio_method(models, eng, ref, o, name, args, kws, st):
                 tb = t.app('(_ is VBytes)', t.BOOL, args[0].t)
 
                 def go(st1):
-                    d2 = VBytes(t.app('barr', t.ARR, args[0].t), t.app('boff', t.INT, args[0].t), t.app('blen', t.INT, args[0].t))
-                    st1.assume(t.ge(d2.len, t.ZERO))
+                    d2 = eng.dyn_bytes(args[0], st1)
                     return do_write(eng, ref, o, d2, st1)
                 return eng.typed(st, tb, go, 'write of non-bytes')
             return eng.raise_(st, 'TypeError', origin='write of non-bytes')
